@@ -2,9 +2,9 @@ package kit
 
 import (
 	"bytes"
-	"strconv"
 	"encoding/binary"
 	"encoding/hex"
+	"strconv"
 )
 
 // Scanner finds any of many registered secrets (raw, hex, or standard base64 at
